@@ -42,3 +42,21 @@ Example C04_runs :
   let v := [to_nrange (normnd 5 (mkU 1 (-1) 2)); to_nrange (normnd 7 (mkU (-4) (-1) 1))] in
   (vdims v, map (view_off [5;7] v) (seq 0 (prod (vdims v)))) = ([2;3], [11;12;13;25;26;27]).
 Proof. vm_compute. reflexivity. Qed.
+
+(** * Tie to the source by translation (lib/cxx2v.py, re-run on every check):
+    the size formula of range_detector / fseq_range_detector / seq::size() and the
+    normalisation of to_positive<fseq|iseq,N> in tensor/Ranges.h, as translated on this
+    run, are [rsize] and [normnd] *)
+From FastorV Require Import Gen.Generated Proofs.GenEq.
+Theorem C04_source_range_size :
+  forall f l s, gen_range_detector f l s = rsize (mkU f l s) /\
+                gen_fseq_range_detector f l s = rsize (mkU f l s) /\
+                gen_seq_size f l s = rsize (mkU f l s).
+Proof. intros. exact (conj (gen_range_detector_eq f l s) (conj (gen_fseq_range_detector_eq f l s) (gen_seq_size_eq f l s))). Qed.
+Print Assumptions C04_source_range_size.
+Theorem C04_source_to_positive :
+  forall f l s n,
+    gen_to_positive_fseq f l s n = (uf (normnd n (mkU f l s)), ul (normnd n (mkU f l s))) /\
+    gen_to_positive_iseq f l s n = (uf (normnd n (mkU f l s)), ul (normnd n (mkU f l s))).
+Proof. intros. exact (conj (gen_to_positive_fseq_eq f l s n) (gen_to_positive_iseq_eq f l s n)). Qed.
+Print Assumptions C04_source_to_positive.
